@@ -51,7 +51,8 @@ class Atom(Obj):
     """Abstract record with *concrete identity* (an element of a small finite model chosen by the rule, e.g. one
     orbital index): two Atoms are equal iff they are the same object, so ``==`` / ``is`` / ``in`` against concrete
     values and containers are decided by the evaluator instead of becoming symbolic comparisons of record names.
-    The hash is the creation serial, which keeps set/dict iteration order deterministic."""
+    The hash is the creation serial, which keeps set/dict iteration order deterministic.  An Atom with a true
+    ``_scalar`` attribute is not iterable (iterating/unpacking it raises TypeError like a sympy expression)."""
     _serial = 0
 
     def __init__(self, cls=None, name=None, **attrs):
@@ -174,7 +175,8 @@ class Symex:
     """
 
     def __init__(self, model, inline=None, hooks=None, unroll=2, max_paths=512, max_steps=200000, what="?",
-                 assume_asserts=True, isinstance_hook=None, attr_hook=None, max_depth=12, cut_loops=False):
+                 assume_asserts=True, isinstance_hook=None, attr_hook=None, max_depth=12, cut_loops=False,
+                 recursion_error=False):
         self.model = model
         self.inline = inline or (lambda q: False)
         self.hooks = dict(hooks or {})
@@ -187,6 +189,7 @@ class Symex:
         self.attr_hook = attr_hook
         self.max_depth = max_depth
         self.cut_loops = cut_loops
+        self.recursion_error = recursion_error  # exceeding max_depth is the analysed program's RecursionError
         self._modconst = {}
         self.fresh_n = 0
         self.on_start = None
@@ -485,6 +488,8 @@ class Symex:
             return it if isinstance(it, list) else list(it)
         if isinstance(it, T):
             return [T("elem", it, k) for k in range(self.unroll)]
+        if isinstance(it, Atom) and it.attrs.get("_scalar"):
+            raise Raised("TypeError", f"{it!r} is not iterable", node)
         if isinstance(it, Obj):
             return [T("elem", it.term, k) for k in range(self.unroll)]
         self.unsupported(node, f"iteration over {type(it).__name__}")
@@ -1242,6 +1247,9 @@ class Symex:
         fn = f.node
         self.depth += 1
         if self.depth > self.max_depth:
+            if self.recursion_error:
+                self.depth -= 1
+                raise Raised("RecursionError", f"call depth {self.max_depth} exceeded", node)
             self.unsupported(node, "inlining depth exceeded")
         saved = (self.frames, self.module)
         try:
